@@ -8,9 +8,12 @@ def sim_model(system, index, seed, horizon):
     random.seed(seed * 1000 + index)
     s1 = Source('s1', PartGenerator('A', value=1 + index), cycle_time=1 + index % 3)
     s2 = Source('s2', PartGenerator('B', value=2), cycle_time=2)
-    m1 = PartProcessor('m1', [s1, s2], cycle_time=1.5)
+    # the system's own (default) resource manager: two machines share one tool
+    system.resource_manager.add_resources('tool', 1)
+    m1 = PartProcessor('m1', [s1, s2], cycle_time=1.5, resources_for_processing={'tool': 1})
     m2 = PartHandler('m2', [s1, s2], cycle_time=1.5 + 0.5 * (index % 2))
-    b = Buffer('b', [m1, m2], capacity=2 + index, minimum_delay=0.5)
+    m3 = PartProcessor('m3', [s1, s2], cycle_time=1, resources_for_processing={'tool': 1})
+    b = Buffer('b', [m1, m2, m3], capacity=2 + index, minimum_delay=0.5)
     Sink('k', [b], cycle_time=index % 2)
     system.simulate(0, print_summary=False)
     m1.schedule_failure(3 + index)
@@ -31,12 +34,12 @@ def summary(system):
         return ids[x]
     sd = system.simulation_data
     out = {}
-    for label in ('supplied_new_part', 'received_part', 'produced_part', 'device_failure', 'level'):
+    for label in ('supplied_new_part', 'received_part', 'produced_part', 'device_failure', 'level', 'resource_update'):
         for dev in sorted(sd.get(label, {}), key=str):
             rows = []
             for r in sd[label][dev]:
                 r = list(r)
-                if label != 'level' and len(r) > 1:
+                if label not in ('level', 'resource_update') and len(r) > 1:
                     r[1] = norm(r[1])
                 rows.append(r)
             out['%s/%s' % (label, dev)] = rows
